@@ -167,6 +167,12 @@ impl Recorder {
         let dual = if self.dual && PINO_NAMES.contains(&ix.name.as_str()) { Some(self.dual_run(w, ix)) } else { None };
         const LIQ_QUOTED: [&str; 4] = ["increase_liquidity", "increase_liquidity_v2", "decrease_liquidity", "decrease_liquidity_v2"];
         let pre_bank = if self.sdk && (ix.name == "swap" || ix.name == "swap_v2" || LIQ_QUOTED.contains(&ix.name.as_str())) { Some(w.bank.clone()) } else { None };
+        // the SDK's fee / reward quotes for the position an update_fees_and_rewards is about, on the pre-state (wider specification W6)
+        let sdk_owed = if self.sdk && ix.name == "update_fees_and_rewards" {
+            crate::sdk::quote_owed(&w.bank, &ix.key("position"), &ix.key("tick_array_lower"), &ix.key("tick_array_upper"), w.now as u64)
+        } else {
+            json!({"present": false})
+        };
         // the SDK's liquidity quote of the same liquidity amount on the pre-state
         let sdk_liq = match (&pre_bank, ix.args.get("pos").and_then(|v| v.as_str())) {
             (Some(b), Some(pos)) if LIQ_QUOTED.contains(&ix.name.as_str()) && w.positions.contains_key(pos) && w.pos_range(pos).is_some() => {
@@ -271,7 +277,7 @@ impl Recorder {
             "must": must, "now": nu(w.now as u128), "epoch": nu(crate::svm::epoch() as u128), "tag": tag,
             "logs": if ex.ok() { vec![] } else { ex.logs.iter().rev().take(4).rev().cloned().collect::<Vec<_>>() },
             "swaps": swaps, "events": evs, "diff": d, "prices": prices,
-            "dual": dual.unwrap_or(json!({"present": false})), "routing": routing, "sdk": sdk, "sdkUser": sdk_user, "sdkLiq": sdk_liq,
+            "dual": dual.unwrap_or(json!({"present": false})), "routing": routing, "sdk": sdk, "sdkUser": sdk_user, "sdkLiq": sdk_liq, "sdkOwed": sdk_owed,
         });
         w.last_proj = proj;
         self.write(&ev);
